@@ -331,6 +331,16 @@ class Func:
         self.exit = d.get("exit")
         for b in d.get("blocks", []):
             self.blocks[b["id"]] = Block(b)
+        # prune edges of constant conditions (`while (1)`, `do {} while (0)`)
+        for b in self.blocks.values():
+            t = b.term
+            if t and t.get("cond") is not None and t["cls"] != "SwitchStmt" and len(b.succs) == 2:
+                v = t["cond"].get("v")
+                if v is not None and t["cond"].get("k") in ("int", "enum", "cast"):
+                    if v:
+                        b.succs = [b.succs[0], None]
+                    else:
+                        b.succs = [None, b.succs[1]]
         for b in self.blocks.values():
             for s in b.succs:
                 if s is not None and s in self.blocks:
